@@ -533,12 +533,6 @@ func execFuzz(in string) Result {
 	if el > 5*time.Second {
 		fuzzSlow++
 	}
-	if el > fuzzMaxEl && outcome == 0 {
-		fuzzMaxEl, fuzzMaxIn = el, in
-		if len(fuzzMaxIn) > 200 {
-			fuzzMaxIn = fuzzMaxIn[:200] + "..."
-		}
-	}
 	fuzzMu.Unlock()
 	describe := func() string {
 		if len(data) <= 4096 {
@@ -634,6 +628,16 @@ func execFuzz(in string) Result {
 	fuzzPool <- p
 	if outcome == 2 {
 		fuzzBreaker(target, true)
+	}
+	if outcome == 0 {
+		fuzzMu.Lock()
+		if el > fuzzMaxEl {
+			fuzzMaxEl, fuzzMaxIn = el, in
+			if len(fuzzMaxIn) > 200 {
+				fuzzMaxIn = fuzzMaxIn[:200] + "..."
+			}
+		}
+		fuzzMu.Unlock()
 	}
 	return Result{Term: fmt.Sprintf("FZ %d%%N %d%%N", ti, outcome), Tags: tags, Nontrivial: nontrivial}
 }
